@@ -1099,6 +1099,152 @@ class TestDistinctSessionParallelism:
 
 
 # ---------------------------------------------------------------------------
+# Concurrency: the end of a session serializes with calls on that session
+# ---------------------------------------------------------------------------
+
+
+class _HoldProtocol(Protocol):
+    """Service whose ``hold`` call stays in flight until the test releases it."""
+
+    def open_it(self, value: int) -> int:
+        """Open a session holding *value*."""
+        ...
+
+    def hold(self, close_first: bool) -> int:
+        """Optionally close the session, then block until released; returns the counter value."""
+        ...
+
+    def bump(self) -> int:
+        """Increment the session counter."""
+        ...
+
+
+class _HoldImpl:
+    """Implementation that parks ``hold`` on an event so the test controls when the call ends."""
+
+    def __init__(self) -> None:
+        self.entered = threading.Event()
+        self.release = threading.Event()
+        self.states: list[_StickyCounter] = []
+        self.bumps_on_closed_state = 0
+
+    def open_it(self, value: int, ctx: CallContext) -> int:
+        """Open a sticky session."""
+        state = _StickyCounter(value=value)
+        self.states.append(state)
+        ctx.open_session(state)
+        return value
+
+    def hold(self, close_first: bool, ctx: CallContext) -> int:
+        """Stay in flight (holding the session) until the test sets ``release``."""
+        state = cast("_StickyCounter", ctx.session)
+        if close_first:
+            ctx.close_session()
+        self.entered.set()
+        assert self.release.wait(timeout=10), "test never released the in-flight call"
+        return state.value
+
+    def bump(self, ctx: CallContext) -> int:
+        """Increment the counter; records a use-after-close."""
+        state = cast("_StickyCounter", ctx.session)
+        if state.closed:
+            self.bumps_on_closed_state += 1
+        state.value += 1
+        return state.value
+
+
+class TestSessionEndSerializesWithCalls:
+    """Spec §5: ``state.close()`` never overlaps a call, and a call queued behind the end of its session is lost."""
+
+    @staticmethod
+    def _make() -> tuple[_HoldImpl, _SyncTestClient, _SessionRegistry]:
+        from vgi_rpc.http import drain_handle
+
+        impl = _HoldImpl()
+        server = RpcServer(_HoldProtocol, impl)
+        client = make_sync_client(server, token_key=_TOKEN_KEY, enable_sticky=True, sticky_default_ttl=60.0)
+        handle = drain_handle(client._client.app)
+        assert handle is not None
+        registry: _SessionRegistry = handle.shutdown.__self__  # type: ignore[attr-defined]
+        return impl, client, registry
+
+    @pytest.mark.parametrize("ender", ["shutdown", "reaper", "delete"])
+    def test_close_hook_waits_for_in_flight_call(self, ender: str) -> None:
+        """Shutdown / TTL sweep / DELETE must not run ``state.close()`` under an in-flight call."""
+        impl, client, registry = self._make()
+        try:
+            with http_connect(_HoldProtocol, client=client) as proxy:
+                with cast("Any", proxy).with_session_token() as view:
+                    view.open_it(value=7)
+                    token = view.detach()
+                state = impl.states[0]
+                with (
+                    ThreadPoolExecutor(max_workers=2) as pool,
+                    cast("Any", proxy).with_session_token(token=token) as view,
+                ):
+                    in_flight = pool.submit(view.hold, close_first=False)
+                    assert impl.entered.wait(timeout=10)
+
+                    def end_session() -> None:
+                        if ender == "shutdown":
+                            registry.shutdown()
+                        elif ender == "reaper":
+                            registry.drain_expired(now=time.time() + 3600.0)
+                        else:
+                            client.delete("/__session__", headers={SESSION_HEADER: token})
+
+                    ending = pool.submit(end_session)
+                    time.sleep(0.2)
+                    assert state.closed is False, "close hook ran while a call was dispatching on the session"
+                    impl.release.set()
+                    assert in_flight.result(timeout=30) == 7
+                    ending.result(timeout=30)
+                    view.detach()
+                assert state.closed is True, "the session must still be closed once the call has finished"
+        finally:
+            impl.release.set()
+            client.close()
+
+    @pytest.mark.parametrize("close_first", [False, True])
+    def test_call_queued_behind_session_end_is_lost(self, close_first: bool) -> None:
+        """A call that waited for the session lock while the session ended gets ``session_lost`` and never runs."""
+        impl, client, registry = self._make()
+        try:
+            with http_connect(_HoldProtocol, client=client) as proxy:
+                with cast("Any", proxy).with_session_token() as view:
+                    view.open_it(value=7)
+                    token = view.detach()
+                state = impl.states[0]
+                with (
+                    ThreadPoolExecutor(max_workers=3) as pool,
+                    cast("Any", proxy).with_session_token(token=token) as view,
+                ):
+                    in_flight = pool.submit(view.hold, close_first=close_first)
+                    assert impl.entered.wait(timeout=10)
+                    queued = pool.submit(view.bump)
+                    time.sleep(0.2)  # let the second call reach the session lock
+                    ending = None
+                    if not close_first:
+                        # End the session from outside while the second call is queued behind the first.
+                        ending = pool.submit(registry.close, next(iter(registry)))
+                        time.sleep(0.1)
+                    impl.release.set()
+                    assert in_flight.result(timeout=30) == 7
+                    with pytest.raises(RpcError) as excinfo:
+                        queued.result(timeout=30)
+                    assert excinfo.value.error_type == "SessionLostError"
+                    if ending is not None:
+                        assert ending.result(timeout=30) is True
+                    view.detach()
+                assert state.value == 7, "the queued call must not have dispatched"
+                assert impl.bumps_on_closed_state == 0
+                assert state.closed is True
+        finally:
+            impl.release.set()
+            client.close()
+
+
+# ---------------------------------------------------------------------------
 # Principal binding on the DELETE endpoint
 # ---------------------------------------------------------------------------
 #
